@@ -357,11 +357,45 @@ fn scaling(thorough: bool) -> Stats {
     })
 }
 
+/// Every ordered pair (and, for the assignment and comparison operators, triple) of tokens of the wide
+/// alphabet inside ten templates of 5..7 tokens — longer than the exhaustive wide sweep, so that what one
+/// particular operator token lets pass is seen with two operands after it (`a %= * 7 2`), inside a group,
+/// inside a call and after a separator.
+fn token_pair_templates() -> Stats {
+    let alpha = wide_alphabet();
+    let ctxs = generous_contexts();
+    let mut st = Stats::new();
+    let (a, one, two) = (T::Ident("a"), T::Lit("1"), T::Lit("2.5"));
+    for x in &alpha {
+        for y in &alpha {
+            let templates: Vec<Vec<T>> = vec![
+                vec![a, *x, *y, one, two],
+                vec![a, *x, *y, one],
+                vec![a, *x, one, *y, two],
+                vec![*x, a, *y, one, two],
+                vec![a, *x, T::LParen, *y, one, T::RParen],
+                vec![a, T::LParen, *x, *y, one, T::RParen],
+                vec![one, T::Semi, *x, *y, two],
+                vec![one, T::Comma, a, *x, *y, two],
+                vec![T::LParen, a, *x, T::RParen, *y, one],
+                vec![a, *x, one, two, *y],
+            ];
+            for t in &templates {
+                check_seq(t, &ctxs, &mut st);
+                st.states += 1;
+                st.count("token-pair-template-sequences");
+            }
+        }
+    }
+    st
+}
+
 pub fn run(cfg: &Cfg) -> Report {
     let (n_rep, n_wide) = cfg.tier.pick((7, 4), (9, 5));
     let mut stats = sweep(&alphabet(), n_rep, "representative-alphabet");
     stats.merge(sweep(&wide_alphabet(), n_wide, "wide-alphabet"));
     stats.merge(scaling(cfg.tier == Tier::Thorough));
+    stats.merge(token_pair_templates());
     for ts in [
         vec![T::Bin("+"), T::Lit("1"), T::Lit("1")],
         vec![T::Lit("1"), T::Bin("+"), T::Lit("1"), T::LParen, T::RParen],
@@ -387,7 +421,7 @@ pub fn run(cfg: &Cfg) -> Report {
     Report {
         property: ID,
         level: "model_checking",
-        rule: format!("depth-first search over every token sequence of length <= {n_rep} over the 12-token class alphabet `1 a + - ! = += ( ) , ; true` and of length <= {n_wide} over the 36-token alphabet with every operator and string literals spelling a parenthesis; sequences of <= 4 tokens also with a comment containing a parenthesis before or after them, sequences of 2..5 tokens also joined by `/**/` and by a line comment instead of spaces; a state is a token prefix, a transition appends one token, every state is fed to the real tokenizer/tree builder (and, if it precompiles although ill-formed, evaluated in 5 generous contexts through the shared and the mutable walker). Plus 27 scaling families (a missing or surplus parenthesis, a juxtaposition or a dangling operator at the end of or deep inside a long well-formed input) at every size 1..20 and up to 129 / 1..40 and up to 400. Non-trivial = classified unbalanced or ill-formed by the recogniser; each sequence is enumerated exactly once, so the count is of distinct sequences"),
+        rule: format!("depth-first search over every token sequence of length <= {n_rep} over the 12-token class alphabet `1 a + - ! = += ( ) , ; true` and of length <= {n_wide} over the 36-token alphabet with every operator and string literals spelling a parenthesis; sequences of <= 4 tokens also with a comment containing a parenthesis before or after them, sequences of 2..5 tokens also joined by `/**/` and by a line comment instead of spaces; a state is a token prefix, a transition appends one token, every state is fed to the real tokenizer/tree builder (and, if it precompiles although ill-formed, evaluated in 5 generous contexts through the shared and the mutable walker). Plus every ordered pair of tokens of the wide alphabet inside ten templates of 5..7 tokens (two operands after the pair, the pair inside a group, inside a call, after a separator). Plus 27 scaling families (a missing or surplus parenthesis, a juxtaposition or a dangling operator at the end of or deep inside a long well-formed input) at every size 1..20 and up to 129 / 1..40 and up to 400. Non-trivial = classified unbalanced or ill-formed by the recogniser; each sequence is enumerated exactly once, so the count is of distinct sequences"),
         nontrivial_set: "counter:nontrivial-distinct",
         exhaustive: true,
         bound_completed: format!("length {n_rep} (class alphabet), {n_wide} (wide alphabet)"),
